@@ -459,32 +459,50 @@ def r2(idx, rep):
     coll = [sorted(v) for v in keys.values() if len(v) > 1]
     rep.check(not coll and len(keys) == 4, "R2", f"{fn.file}::Cache._cache_name distinguishes paths",
               f"different files share a cache entry: {coll} (every source-mode: preceding input is called data.csv: a later run would get an earlier run's line counts and headers)", K.where(fn, fn.node))
-    # LineMonitor dump/load/copy agree field by field
+    # LineMonitor dump/load/copy agree field by field (interpreted: a monitor with eight distinct counters is dumped, the text is
+    # loaded into a fresh monitor, and the monitor is copied; every counter must arrive unchanged — json is executed as trusted base)
+    import json as _json
     ci = idx.cls("LineMonitor")
     fields = sorted(t.attr for t, v, st in K.stores_in(ci.methods["__init__"].node) if isinstance(t, ast.Attribute) and t.attr != "_last_line_stats")
-    dump = ci.methods["dump"]
-    load = ci.methods["load"]
-    cpy = ci.methods["copy"]
-    dkeys = {}
-    for n in ast.walk(dump.node):
-        if isinstance(n, ast.Dict):
-            for k, v in zip(n.keys, n.values):
-                dkeys[k.value] = unparse(v)
-    lkeys = {}
-    for t, v, st in K.stores_in(load.node):
-        if isinstance(t, ast.Attribute) and isinstance(v, ast.Subscript) and isinstance(v.slice, ast.Constant):
-            lkeys[t.attr] = v.slice.value
-    ckeys = {t.attr: unparse(v) for t, v, st in K.stores_in(cpy.node) if isinstance(t, ast.Attribute)}
+    rep.analysed(ci.methods["dump"], ci.methods["load"], ci.methods["copy"])
+    values = {f: 11 + n for n, f in enumerate(fields)}
+
+    def new_lm(i, c, r, a, k):
+        n = i.store.get("__lm__", 0) + 1
+        i.store["__lm__"] = n
+        name = f"LM{n}"
+        i.types[name] = "LineMonitor"
+        i.call_function(ci.methods["__init__"], {"__pos__": []}, name)
+        return Obj(name)
+
+    def program(it):
+        it.types["A"] = "LineMonitor"
+        it.types["B"] = "LineMonitor"
+        text = it.call_function(ci.methods["dump"], {"__pos__": []}, "A")
+        it.call_function(ci.methods["__init__"], {"__pos__": []}, "B")
+        it.call_function(ci.methods["load"], {"__pos__": [text]}, "B")
+        cp = it.call_function(ci.methods["copy"], {"__pos__": []}, "A")
+        return text, cp
+
+    it = Interp(idx, types={"A": "LineMonitor", "B": "LineMonitor"}, inline_all={"LineMonitor"}, inline={f"LineMonitor.{p_}" for p_ in ci.properties}, unknown_calls="residual",
+                handlers={"LineMonitor": new_lm, "json.dumps": lambda i, c, r, a, k: _json.dumps(*a, **k), "json.loads": lambda i, c, r, a, k: _json.loads(*a, **k)})
+    ps = it.run_program(program, {f"A.{f}": v for f, v in values.items()})
     bad = []
-    for f in fields:
-        pub = f[1:]
-        if dkeys.get(pub) not in (f"self.{pub}", f"self.{f}"):
-            bad.append(f"dump[{pub!r}] = {dkeys.get(pub)}")
-        if lkeys.get(f) != pub:
-            bad.append(f"load: {f} <- j[{lkeys.get(f)!r}]")
-        if ckeys.get(f) not in (f"self.{pub}", f"self.{f}"):
-            bad.append(f"copy: {f} <- {ckeys.get(f)}")
-    rep.check(not bad and len(fields) == 8, "R2", f"{ci.file}::LineMonitor dump/load/copy agree", "; ".join(bad) or f"{len(fields)} fields", ci.file)
+    if len(ps) != 1 or ps[0].result[0] != "return":
+        bad.append(f"dump/load/copy are not one normal path on the model: {[p.result for p in ps][:2]}")
+    else:
+        text, cp = ps[0].result[1]
+        fsr = ps[0].final_store
+        for f in fields:
+            if fsr.get(f"B.{f}") != values[f]:
+                bad.append(f"load(dump()): {f} is {fsr.get('B.' + f)!r}, was {values[f]}")
+            if not isinstance(cp, Obj) or fsr.get(f"{cp.name}.{f}") != values[f]:
+                bad.append(f"copy(): {f} is {fsr.get(cp.name + '.' + f) if isinstance(cp, Obj) else cp!r}, was {values[f]}")
+            if fsr.get(f"A.{f}") != values[f]:
+                bad.append(f"dump()/copy() changed the source's {f}")
+        if isinstance(cp, Obj) and cp.name in ("A", "B"):
+            bad.append("copy() returns the monitor itself")
+    rep.check(not bad and len(fields) == 8, "R2", f"{ci.file}::LineMonitor dump/load/copy agree", "; ".join(bad[:6]) or f"{len(fields)} fields", ci.file)
 
 
 def r4(idx, rep):
